@@ -46,6 +46,8 @@ inductive Step (c : Cfg) : State → Act → State → Prop where
       Step c s .drainCancel { s with queue := rest, pending := s.pending.erase t, cancelled := t :: s.cancelled }
   | drainCancelRun {s x t rest} : s.cpc = .drain → s.queue = .item x t :: rest → t ∈ s.running →
       Step c s .drainCancelRun { s with queue := rest, creq := t :: s.creq }
+  | drainDetach {s x t rest} : s.cpc = .drain → s.queue = .item x t :: rest → (t ∈ s.pending ∨ t ∈ s.running) →
+      Step c s .drainDetach { s with queue := rest }
   | drainSkip {s x t rest} : s.cpc = .drain → s.queue = .item x t :: rest → t ∈ s.finished →
       Step c s .drainSkip { s with queue := rest }
   | drainEnd {s rest} : s.cpc = .drain → s.queue = .endMark :: rest →
@@ -127,6 +129,16 @@ theorem step_sound (c : Cfg) (s s' : State) (a : Act) (h : step c s a = some s')
       · rename_i x t rest hq
         split at h
         · simp at h; subst h; rename_i hp; exact .drainCancelRun hc hq hp
+        · simp at h
+      · simp at h
+    · simp at h
+  case drainDetach =>
+    split at h
+    · rename_i hc
+      split at h
+      · rename_i x t rest hq
+        split at h
+        · simp at h; subst h; rename_i hp; exact .drainDetach hc hq hp
         · simp at h
       · simp at h
     · simp at h
